@@ -416,6 +416,7 @@ def c16_rf16(run):
     rf_proto.rf163(run)
     rf_proto.rf16f(run)
     rf_proto.rf171(run)
+    rf_templates.rf11(run)
     run.min_instances('RF66', 4)
     rf_x86.rf77(run)
     rf_dispatch.rf7g(run)
@@ -500,6 +501,7 @@ def c03_rf11(run):
     rf_proto.rf165(run)
     rf_iface.rf177(run)
     rf_keys.rf182(run)
+    rf_abi.rf187(run)
     rf_iface.rf132(run)
     rf_iface.rf147(run)
     rf_iface.rf151(run)
@@ -518,6 +520,7 @@ def c05_rf12(run):
     run.min_instances('RF12', 25)
     rf_keys.rf12b(run)
     rf_keys.rf182(run)
+    rf_abi.rf187(run)
     run.min_instances('RF12b', 100)
     rf_alloc.rf3b(run, units=('mir',))
     run.min_instances('RF3b', 100)
@@ -575,6 +578,7 @@ def c06_rf10(run):
     rf_abi.rf155(run)
     rf_fold.rf166(run)
     rf_abi.rf126(run)
+    rf_abi.rf186(run)
 
 
 def c02_rf9(run):
